@@ -229,3 +229,22 @@ _reg(
     "Fault enumeration: pass indices enumerated completely for every program (before/after each pass); crash points inside a pass are approximated by its boundaries.",
     exhaustive={"quick": "every optimizer pass index x {before, after} for each listed program under the default policy", "thorough": "every optimizer pass index x {before, after} x 3 policies for each listed program"},
 )
+
+_reg(
+    "C13",
+    "fault_enumeration",
+    "each worker process is one long history of to_onnx calls; cases = successful conversions of 10 programs (jnp, nnx, linen, equinox, nested "
+    "@onnx_function, jax.jit-decorated with inner jit, loop, cond+scan, double precision, layout flags) interleaved with failing calls whose "
+    "failure is injected at: user code raising while traced (top level, loop body, cond branch, function body, nested function body; both "
+    "precisions); the k-th _patching._resolve call, the k-th apply_patches context entry and the k-th function-plugin patch function while the "
+    "patch stack is built (quick: 40 strata each over ~1100 sites, thorough: complete); the k-th lowering call; every optimizer pass index "
+    "before/after in strict mode; ir.to_proto, onnx.save_model and post-processing raising. After EVERY call the monitors compare with the "
+    "state recorded before the first conversion: inspect.getattr_static snapshot of all attributes of jax*/jaxlib*/flax*/equinox*/optax/einops/"
+    "jaxtyping modules and of their classes along the MRO (~135k entries), jax_enable_x64, jax2onnx idle state (_PATCH_STATE, "
+    "_IN_FUNCTION_BUILD), pytree leaves of the user models, eager calls of the converted callables and three jit probes. evaluations = calls "
+    "in the histories; non-trivial = the call reached patch application (counter) ; distinct = (stage, fault index, program).",
+    (250, 200, 2500, 2000),
+    "state monitor around every call of fault-injected conversion histories: namespace snapshots (getattr_static along the MRO), config, pytrees, behavioural probes",
+    "DESIGN.md 3/C13",
+    "Fault enumeration over call boundaries into foreign code while the patch stack is built and over later stages; asynchronous exceptions are outside the fault model.",
+)
